@@ -17,6 +17,7 @@
   11,22,33,23,13,12 ↦ 1..6; `idTensor i j m n = ½(δ_im δ_jn + δ_in δ_jm)`.
 -/
 import CijProofs.Lemmas.VRHExamples
+import CijProofs.Lemmas.VRHSource
 namespace Cij.C07
 
 open Cij Cij.VRH Matrix
@@ -281,5 +282,28 @@ example : Keys wInp ∧ SPDPoint wInp wS 0 0 ∧
 /-- the identity tensor and the Voigt-index map used in the statements, on concrete indices -/
 example : idTensor 1 2 2 1 = 1 / 2 ∧ idTensor 1 1 1 1 = 1 ∧ idTensor 1 1 2 2 = 0 ∧ vidx 2 3 = 4 ∧ vidx 1 1 = 1 := by
   refine ⟨by norm_num [idTensor], by norm_num [idTensor], by norm_num [idTensor], by decide, by decide⟩
+
+/-! #### the model IS the source: bodies re-extracted from calculator.py on this run
+
+`tools/gen_tables.py` parses the bodies of the six averaging properties, `mass`, `primary_velocities` and
+`secondary_velocities` of `CijVolumeBaseInterface` into expression trees (`Generated.vrh*`).  The point formulas about
+which everything above is proved are definitionally those trees, for every scalar type (`Lemmas/VRHSource.lean`); here
+at ℝ.  A changed coefficient, index or operator in those Python bodies makes this theorem fail to check. -/
+
+open Cij.VExpr in
+theorem c07_model_is_source (c11 c22 c33 c12 c23 c13 c44 c55 c66 s11 s22 s33 s12 s23 s13 s44 s55 s66 : ℝ) (e : Env ℝ)
+    (hc : e.c = cEnv c11 c22 c33 c12 c23 c13 c44 c55 c66) (hs : e.s = cEnv s11 s22 s33 s12 s23 s13 s44 s55 s66) :
+    bulkVoigtPt c11 c22 c33 c12 c23 c13 = eval e Generated.vrhBulkVoigt ∧
+    shearVoigtPt c11 c22 c33 c12 c23 c13 c44 c55 c66 = eval e Generated.vrhShearVoigt ∧
+    bulkReussPt s11 s22 s33 s12 s23 s13 = eval e Generated.vrhBulkReuss ∧
+    shearReussPt s11 s22 s33 s12 s23 s13 s44 s55 s66 = eval e Generated.vrhShearReuss ∧
+    hillPt (e.prop .kR) (e.prop .kV) = eval e Generated.vrhBulkHill ∧
+    hillPt (e.prop .gR) (e.prop .gV) = eval e Generated.vrhShearHill ∧
+    mass e.cellmass e.avogadro = eval e Generated.vrhMass ∧
+    vpPt (e.prop .kH) (e.prop .gH) e.V e.ryFactor e.mass = eval e Generated.vrhVp ∧
+    vsPt (e.prop .gH) e.V e.ryFactor e.mass = eval e Generated.vrhVs :=
+  ⟨bulkVoigt_is_source c11 c22 c33 c12 c23 c13 c44 c55 c66 e hc, shearVoigt_is_source c11 c22 c33 c12 c23 c13 c44 c55 c66 e hc,
+   bulkReuss_is_source s11 s22 s33 s12 s23 s13 s44 s55 s66 e hs, shearReuss_is_source s11 s22 s33 s12 s23 s13 s44 s55 s66 e hs,
+   (hill_is_source e).1, (hill_is_source e).2, mass_is_source e, vp_is_source e, vs_is_source e⟩
 
 end Cij.C07
